@@ -241,6 +241,10 @@ class HistRunner:
                                  what='%s was not rebuilt although %s was force-rebuilt (redo) in a run that had already checked one of them'
                                       % late_hits[0]))
         self.late |= ctx['late']
+        for n in sorted(ctx.get('absorbed', ())):
+            anoms.append(Anomaly(cls='underbuild', key='underbuild:forced-rebuild-after-check-in-same-run-not-seen-by-dependents', cont=True, target=n,
+                                 what='%s was force-rebuilt (redo) after it had already been checked in the same run: redo does not mark it changed, '
+                                      'its dependents are not rebuilt' % n))
         for n, why in ctx['reasons'].items():
             if (why or '').startswith('extra-edge:'):
                 anoms.append(Anomaly(cls='overbuild', key='overbuild:extra-dependency-recorded-by-out-of-band-build', cont=True, target=n,
